@@ -1004,25 +1004,38 @@ def mon_c10(m, out):
         if not origin:
             out.violation('propagation-origin', "run() raised %r which no job or scheduler raised" % (v[1],))
         else:
-            first = origin[0]
-            if first['kind'] == 'run_raise' and not isinstance(v[1], TimeoutError):
-                out.violation('propagation-origin', "%r first appears as raised by scheduler %s, no job raised it"
-                              % (v[1], first['who']))
-            x = m.parent[first['who']]
-            hops = 0
-            if not m.critical(first['who']):
-                out.violation('propagation-through-non-critical', "%r was raised by non-critical %s"
-                              % (v[1], first['who']))
-            while x is not None:
-                rr = m.first(x, ('run_raise',))
-                if rr is None or rr['exc'] is not v[1]:
-                    out.violation('propagation-chain', "%s did not re-raise the object %r" % (x, v[1]))
-                    break
-                if not m.critical(x):
-                    out.violation('propagation-through-non-critical', "%r bubbled through non-critical %s"
-                                  % (v[1], x))
-                hops += 1
-                x = m.parent[x]
+            # the path of the object from where it was raised up to the top; the
+            # same object may have been raised at several places (a sentinel
+            # instance shared by the whole program): one complete path is enough
+            def path_problems(first):
+                probs = []
+                if first['kind'] == 'run_raise' and not isinstance(v[1], TimeoutError):
+                    probs.append(('propagation-origin', "%r first appears as raised by scheduler %s, no job raised it"
+                                  % (v[1], first['who'])))
+                x = m.parent[first['who']]
+                hops = 0
+                if not m.critical(first['who']):
+                    probs.append(('propagation-through-non-critical', "%r was raised by non-critical %s"
+                                  % (v[1], first['who'])))
+                while x is not None:
+                    rr = m.first(x, ('run_raise',))
+                    if rr is None or rr['exc'] is not v[1]:
+                        probs.append(('propagation-chain', "%s did not re-raise the object %r" % (x, v[1])))
+                        break
+                    if not m.critical(x):
+                        probs.append(('propagation-through-non-critical', "%r bubbled through non-critical %s"
+                                      % (v[1], x)))
+                    hops += 1
+                    x = m.parent[x]
+                return probs, hops
+            candidates = [e for e in origin if e['kind'] == 'raise'] or origin[:1]
+            results = [path_problems(e) for e in candidates]
+            if len(candidates) > 1:
+                out.count('  ... of an object raised at several places')
+            good = [r for r in results if not r[0]]
+            probs, hops = good[0] if good else results[0]
+            for clause, msg in probs:
+                out.violation(clause, msg)
             out.count('  ... through %d scheduler level(s)' % hops)
 
 
